@@ -52,11 +52,26 @@ def _get_uses_of(node: ast.AST, scope: ast.AST, source: str) -> Iterable[ast.Nam
         # wherever it uses the name, unless it declares it global or nonlocal.
         if any(name in child.names for child in core.walk(funcdef, (ast.Global, ast.Nonlocal))):
             continue
-        if any(core.walk(funcdef, ast.Name(ctx=ast.Store, id=name))) or any(
-            (alias.asname or alias.name).split(".")[0] == name
-            for alias in core.walk(funcdef, ast.alias)
+        if (
+            any(core.walk(funcdef, ast.Name(ctx=ast.Store, id=name)))
+            or any(core.walk(funcdef, ast.ExceptHandler(name=name)))
+            or any(
+                (alias.asname or alias.name).split(".")[0] == name
+                for alias in core.walk(funcdef, ast.alias)
+            )
+            or any(
+                child is not funcdef and child.name == name
+                for child in core.walk(
+                    funcdef, (ast.FunctionDef, ast.AsyncFunctionDef, ast.ClassDef)
+            ))
         ):
             blacklisted_names.update(core.walk(funcdef, ast.Name))
+
+    for function in core.walk(scope, ast.Lambda):
+        if node not in core.walk(function, type(node)) and any(
+            core.walk(function.args, ast.arg(arg=name))
+        ):
+            blacklisted_names.update(core.walk(function, ast.Name))
 
     augass_candidates = {
         target
